@@ -87,12 +87,11 @@ Fixpoint pt_table_from (k : rid -> hkind) (i : nat) (g : grammar) : grammar :=
   end.
 Definition pt_table : grammar := pt_table_from kind 0 G.
 
-(* the unselected non-leaf handler overrides start/success/failure/unwind WITHOUT forwarding to
-   Control< Rule >: a raising failure hook (must_if) of such a rule is never called; every
-   bookkeeping handler defines unwind() whatever the user's control offers *)
+(* every bookkeeping handler defines unwind() whatever the user's control offers (and forwards to
+   Control< Rule >::unwind only if that exists); start/success/failure are forwarded to Control< Rule >
+   by both bookkeeping handlers, so a raising failure hook (must_if) behaves as in the plain parse *)
 Definition pt_cfg (C : cfg) : cfg :=
-  mkcfg (ceol C) (acts C) (abeh C) (ibeh C) (fun _ => true)
-        (fun k r => match kind r with KPass => false | _ => raise_on_failure C k r end).
+  mkcfg (ceol C) (acts C) (abeh C) (ibeh C) (fun _ => true) (raise_on_failure C).
 End Classify.
 
 (* ---------- the node stack (internal::state< Node >::stack, head = back()) ---------- *)
@@ -156,4 +155,4 @@ Definition pt_finish (kind_ : rid -> hkind) (x : result) : pt_result :=
   end.
 
 Definition pt_parse (G : grammar) (sel : selector) (C : cfg) (f : nat) (d : dyn) (r : rid) (c : cursor) : pt_result :=
-  pt_finish (kind G sel) (eval (pt_table G sel) (pt_cfg G sel C) f d r c).
+  pt_finish (kind G sel) (eval (pt_table G sel) (pt_cfg C) f d r c).
